@@ -248,6 +248,16 @@ def build(case):
             raise ValueError(name)
     if rho_default and 'rho' in kw and 'individual_based' not in name:     # the individual-based models document rho / Y0 as required
         del kw['rho']
+    # explicit initial sets are documented as 'iterable' / 'list or set' of nodes: hand them over in the container the case names
+    form = case.get('ic_container', 'list')
+    conv = {'list': list, 'set': set, 'tuple': tuple, 'frozenset': frozenset, 'dictkeys': lambda x: dict.fromkeys(x).keys()}[form]
+    if form != 'list':
+        for key in ('initial_infecteds', 'initial_recovereds'):
+            if isinstance(kw.get(key), list):
+                kw[key] = conv(kw[key])
+        if name.endswith('_pure_IC') and len(args) >= 4 and isinstance(args[3], list):
+            args[3] = conv(args[3])
+    c.ic_container = form
     c.f = getattr(EoN, name)
     c.args, c.kw = args, kw
     c.N = N
@@ -309,4 +319,9 @@ def random_ode_case(r, name, nmax=None):
         ph = gen.make_prehistory(r, case['graph'])
         if ph:
             case['prehistory'] = ph
+    case['ic_container'] = r.choice(['list', 'list', 'set', 'tuple', 'frozenset', 'dictkeys'])
+    if desc['labels'] in ('tuple', 'mixed') and case['ic_container'] == 'tuple':
+        case['ic_container'] = 'list'
+    if case['tmin'] < 0 and r.random() < 0.35:
+        case['tspan'] = -case['tmin']        # tmax == 0 exactly
     return case
